@@ -102,6 +102,8 @@ class Debugger:
                 elif real_op.name == "RETURN":
                     self.calls -= 1
 
+                # As in VirtualMachine.run, so that run-time warnings say where they arose.
+                self.vm.location = real_op.loc
                 real_op.execute(self.vm)
 
     def reset(self) -> None:
